@@ -98,7 +98,7 @@ CHECKS = {
                      "constructors reached through the builders' setters as well"),
     "C12": dict(corpora=["hbuilder", "hbgen", "hsession"],
                 rule="all 2^10 subsets of the header builder's slots x both architectures; all call sequences of length 2..MaxSeq over 3 slots x 2 contents"),
-    "C16": dict(corpora=["boxed", "ctor"],
+    "C16": dict(corpora=["boxed", "ctor", "refslice"],
                 rule="new_boxed on all partitions of content of total length 0..MaxTotal into <= 3 slices x 3 header kinds (each also cloned); "
                      "every heap-allocated tag kind x content lengths 0..MaxContent constructed, cloned and dropped under a tracking allocator"),
     "C09": dict(corpora=["hwalk", "hdst", "hfields", "hgetters", "hload", "hmut"],
